@@ -20,7 +20,7 @@ from harness import framework, tlc, c06rv
 
 def rv_model(ctx, quick):
     for cfg in (["RVMC.cfg", "RVMC16.cfg"] if quick else ["RVMC_thorough.cfg", "RVMC16_thorough.cfg"]):
-        res = tlc.run("RV", cfg, coverage=(cfg == "RVMC16.cfg"), tag="c06rvmc", timeout=6000)
+        res = tlc.run("RV", cfg, coverage=not quick, tag="c06rvmc", timeout=6000)
         ctx.add_tlc(res, "M:" + cfg)
     seen = {}
     for cfg, inv in (("RVMC_dev_jalr.cfg", "IntSem"), ("RVMC_dev_store.cfg", "MemFrame"), ("RVMC_dev_cmp.cfg", "IntSem")):
